@@ -347,6 +347,11 @@ func (m *Model) deliverBatchConfig(bc *shmsg.BatchConfig, s common.Address) Pred
 }
 
 func (m *Model) deliverBlockSeen(bs *shmsg.BlockSeen, s common.Address) Pred {
+	// spec, "Nonce Handling And Spam Protection": only senders that are part of
+	// a keyper set in any accepted config are served
+	if !m.IsMemberAny(s) {
+		return errPred("not a keyper")
+	}
 	if bs.BlockNumber > m.BlocksSeen[s] {
 		m.BlocksSeen[s] = bs.BlockNumber
 	}
